@@ -89,6 +89,22 @@ type ZTagged struct {
 	D any    `json:"d"`
 	E *int   `json:"-"`
 }
+
+// fields exported or not, with every form of json tag, and embedded structs exported or not
+type zHidden struct{ H int }
+type ZTagMix struct {
+	A int    `json:"a"`
+	b int    `json:"b"` //lint:ignore U1000 unexported with a tag on purpose
+	c string `json:"c,omitempty"`
+	d int    `json:"-"`
+	E int    `json:",omitempty"`
+	F int    `json:"-,"`
+	g *int   `json:"g"`
+	h []byte `json:"h"`
+	i any    `json:"i"`
+	ZStruct
+	zHidden
+}
 type ZNested struct {
 	V  any
 	S  fmt.Stringer
@@ -192,13 +208,13 @@ func (ZMdEnvV) Markdown(native.Env) native.Markdown { return "_mde_" }
 // all of them at once
 type ZAll struct{ A int }
 
-func (ZAll) String() string              { return "all" }
-func (ZAll) Error() string               { return "all-error" }
-func (ZAll) HTML() native.HTML           { return "<all>" }
-func (ZAll) CSS() native.CSS             { return "all" }
-func (ZAll) JS() native.JS               { return "1" }
-func (ZAll) JSON() native.JSON           { return "2" }
-func (ZAll) Markdown() native.Markdown   { return "*all*" }
+func (ZAll) String() string            { return "all" }
+func (ZAll) Error() string             { return "all-error" }
+func (ZAll) HTML() native.HTML         { return "<all>" }
+func (ZAll) CSS() native.CSS           { return "all" }
+func (ZAll) JS() native.JS             { return "1" }
+func (ZAll) JSON() native.JSON         { return "2" }
+func (ZAll) Markdown() native.Markdown { return "*all*" }
 
 // ---- implementers, pointer receivers (the value itself implements nothing);
 // the methods do not touch the receiver, so that they can be called on nil
@@ -370,6 +386,11 @@ func zooValues() []zval {
 	add("ZStruct", ZStruct{A: 1, B: "b"})
 	add("ZTagged", ZTagged{A: 1, C: []byte("c"), D: ZBytes("d")})
 	add("ZTagged-zero", ZTagged{})
+	add("ZTagMix", ZTagMix{A: 1, b: 2, c: "c", d: 3, E: 4, F: 5, g: &one, h: []byte("h"), i: ZBytes("i"), ZStruct: ZStruct{A: 6}, zHidden: zHidden{7}})
+	add("ZTagMix-zero", ZTagMix{})
+	add("*ZTagMix", &ZTagMix{b: 1})
+	add("[]ZTagMix", []ZTagMix{{b: 1}, {}})
+	add("map[string]ZTagMix", map[string]ZTagMix{"k": {b: 1}})
 	add("ZNested", ZNested{V: ZBytes("v"), S: ZStrV{2}, E: ZErrV{"m"}, P: &ZStruct{A: 2}, M: map[string]any{"x": []any{nil}}, L: []any{ZStruct{}}})
 	add("ZNested-zero", ZNested{})
 	add("anon-struct", struct {
